@@ -77,6 +77,20 @@ pub fn minimise(
     let mut cur_v = v.clone();
     let mut executions = 0u32;
     let mut accepted = 0u32;
+    // a failing fault case is known by its index: keep only that one first
+    if let (Scenario::Wire(w), Some(ci)) = (&cur, v.case) {
+        if w.cases.len() > 1 && ci < w.cases.len() {
+            let cand = Scenario::Wire(WireScenario { cases: vec![w.cases[ci].clone()], ..w.clone() });
+            executions += 1;
+            if let Some(v2) = cand.exec(mask) {
+                if same(&v2, v) {
+                    cur = cand;
+                    cur_v = v2;
+                    accepted += 1;
+                }
+            }
+        }
+    }
     let t0 = std::time::Instant::now();
     let limit = std::time::Duration::from_secs(
         std::env::var("VERIF_MIN_SECONDS").ok().and_then(|x| x.parse().ok()).unwrap_or(120),
